@@ -23,15 +23,18 @@ Misses == {"none", "first", "middle", "last", "all"}
 SmallN(b) == {0, 1, b - 1, b, b + 1, 2 * b, 2 * b + 1} \ {-1}
 Ts == IF Thorough THEN {1, 2, 3, 8, 32} ELSE {1, 2, 3, 8}
 \* extract_with_config takes the unbatched path for |req| <= 1000 (B is not looked at): B fixed here
+\* archive provenance: S, E carry an external listfile that omits files, N carries NO listfile (slot i = SeqRead(req[i]) does not
+\* depend on the archive having one), L a generated listfile
 SmallWC == { Cfg("with_config", a, t, 10, n, s, m, d) :
-             a \in {"S", "E"}, t \in Ts, n \in {0, 1, 2, 3, 7, 8, 15},
+             a \in {"S", "E", "N"}, t \in Ts, n \in {0, 1, 2, 3, 7, 8, 15},
              s \in BOOLEAN, m \in Misses, d \in {"none", "far"} }
 SmallSel == {c \in SmallWC : /\ (c.miss = "all" => c.n > 0) /\ (c.dup = "far" => c.n >= 2) /\ (c.miss # "none" => c.n > 0)
-                              /\ (Thorough \/ c.arch = "S" \/ (c.t \in {2, 8} /\ c.dup = "none"))}
+                              /\ (Thorough \/ c.arch = "S" \/ (c.t \in {2, 3, 8} /\ c.dup = "none" /\ c.arch = "N" /\ c.n \in {0, 1, 8})
+                                  \/ (c.t \in {2, 8} /\ c.dup = "none"))}
 \* the interfaces without a config: no skip flag (whole-call failure), T through the installed pool;
 \* extract_files_batched gets the batch-boundary request sizes
 Others == { Cfg(i, a, t, b, n, FALSE, m, d) :
-            i \in {"files_parallel", "files_batched", "process"}, a \in {"S", "E"}, t \in {1, 3, 8},
+            i \in {"files_parallel", "files_batched", "process"}, a \in {"S", "E", "N"}, t \in {1, 3, 8},
             b \in {1, 2, 7}, n \in UNION {SmallN(x) : x \in {1, 2, 7}}, m \in {"none", "first", "middle", "last"}, d \in {"none", "adj"} }
 OthersSel == {c \in Others : /\ (c.iface # "files_batched" => (c.b = 1 /\ c.n \in {0, 1, 6, 8, 15}))
                              /\ (c.iface = "files_batched" => c.n \in SmallN(c.b) \cup {15})
@@ -50,7 +53,7 @@ Big == { Cfg("with_config", "L", tb[1], tb[2], n, s, m, "none") : tb \in BigTB, 
 Multi == { Cfg(i, "M", t, 0, n, FALSE, m, "none") : i \in {"multi", "multi_many"}, t \in {1, 3, 8}, n \in 0..5, m \in {"none", "first", "middle", "last"} }
 MultiSel == {c \in Multi : c.miss # "none" => c.n > 0}
 \* every single-archive interface x spelling class x duplicates x a missing name (T = 1 too: a single-thread shortcut is a path)
-Spelled == { CfgS(i, a, t, 2, n, s, m, d, sp) : i \in {"with_config", "files_parallel", "files_batched", "process"}, a \in {"S", "E"},
+Spelled == { CfgS(i, a, t, 2, n, s, m, d, sp) : i \in {"with_config", "files_parallel", "files_batched", "process"}, a \in {"S", "E", "N"},
              t \in {1, 3}, n \in {1, 6}, s \in BOOLEAN, m \in {"none", "last"}, d \in {"none", "far"}, sp \in Spellings }
 SpelledSel == {c \in Spelled : /\ (c.iface # "with_config" => ~c.skip) /\ (c.dup = "far" => c.n >= 2) /\ (c.miss = "last" => c.n >= 2)
                                /\ (Thorough \/ c.arch = "S" \/ (c.t = 3 /\ c.dup = "none" /\ c.miss = "none"))}
